@@ -23,14 +23,14 @@ CLAIMED = {
             "DESIGN.md §5 C03"),
     "C04": (T_PROOF + ": resolver model binds to the nearest enclosing declaration; most-recent-instance invariant makes dynamic id lookup equal lexical lookup on every reachable evaluator state",
             "Static theorem (binding = nearest enclosing declaration; functions visible throughout their block) and dynamic theorem (the runtime's whole-stack search by id finds the lexically visible instance) over the resolver and evaluator models; both models are tied to the code by differential runs (bindings and outputs).",
-            "Trusted: Lean kernel, harness; pointer-keyed tables abstracted as annotations; the call-before-declaration shape (D-04) is a listed finding and an explicit hypothesis of the partial theorem.",
+            "Trusted: Lean kernel, harness; pointer-keyed tables abstracted as annotations. The bridge theorem (Props/C04Bridge: every program the resolver model accepts is WellScoped) removes the hypothesis of the dynamic theorem; the pre-fix whole-stack lookup (D-04, fixed e5abdc8) is kept as a refuted variant.",
             "DESIGN.md §5 C04"),
     "C05": (T_PROOF + ": frame theorems for index assignment, push/pop/reverse and reads over the evaluator model; correspondence on generated array programs",
             "For all states, paths and values a mutation through one variable changes exactly that cell; reads change nothing; copies are independent — proved on the evaluator model, which is tied to runtime.rs by differential runs biased to copy → nested write → read-both sequences.",
             "Trusted: Lean kernel, harness; sharing in the Rust Vec representation is excluded by the tie and by C02, not by the pure model.",
             "DESIGN.md §5 C05"),
     "C06": (T_PROOF + ": progress theorem over the evaluator model with explicit panic outcomes; generated panic-site list must be covered; exhaustive sink × type × route product in the tie",
-            "Accepted programs never reach a panic outcome of the evaluator model, whose panic sites are checked against a list regenerated from runtime.rs/builtins; the finite product of operator/condition/index/method sinks × runtime types × dynamic routes is executed completely on the real runtime each run.",
+            "Accepted programs never reach a panic outcome of the evaluator model (Props/C06Accepted: all nine residual sites discharged from the lexer, parser and resolver models, for source text through the pipeline model; explicit hypotheses: the plan keeps called functions — C03's subject — and the number type parses digit lexemes); the model's panic sites are checked against a list regenerated from runtime.rs/builtins; the finite product of operator/condition/index/method sinks × runtime types × dynamic routes is executed completely on the real runtime each run.",
             "Trusted: Lean kernel, extractor of panic sites, harness worker isolation.",
             "DESIGN.md §5 C06"),
     "C07": (T_PROOF + ": lexer/parser totality (fuel adequacy) and span theorems (ordered, in range, on character boundaries) over the front-end models; correspondence on arbitrary UTF-8, truncations and token mutations",
@@ -38,7 +38,7 @@ CLAIMED = {
             "Trusted: Lean kernel, extractor of lexical tables, harness; nesting depth within the native stack is C08's subject.",
             "DESIGN.md §5 C07"),
     "C08": (T_PROOF + ": guard-coverage theorem over the evaluator's recursion graph (every cycle passes a guarded frame; depth ≤ budget + max guard-free path); measured frame costs and crash-threshold sweep in 8 MiB children",
-            "Partial: the theorem bounds native depth by STACK_BUDGET plus the largest guard-free chain for the evaluator and shows parser/resolver recursion is unguarded; frame sizes are measured, and every recursion shape is run past the budget in debug and release under an 8 MiB stack.",
+            "Partial: the theorem bounds native depth by STACK_BUDGET plus the largest guard-free chain for evaluator, parser and checker (guards added by fix 4fc914f; the pre-fix unguarded recursion is kept as refuted variants); frame sizes are measured, and every recursion shape is run past the budget in debug and release under an 8 MiB stack.",
             "Trusted: Lean kernel, extractor of guard sites; compiled frame sizes are measured, not proved (labelled partial).",
             "DESIGN.md §5 C08"),
     "C09": (T_PROOF + ": checker model vs declarative well-formedness judgement; probed static type table compared with the documented one by decide; correspondence on diagnostics for well-formed programs and injected single-rule violations",
